@@ -23,6 +23,8 @@ Section Iter.
   Notation present := (FeldmanStepThm.present hs).
   Notation SR := (@FeldmanIterTraceDefs.SR hs).
   Notation TR := (@FeldmanIterTraceDefs.TR hs).
+  Notation kinc := FeldmanIterReachBase.kinc.
+  Notation wk := FeldmanIterReachBase.wk.
   Notation safeR := (@ConcRel.safeR G V ev Aux L WI view Inv SR).
   Notation ahead := (@FeldmanIterTraceDefs.ahead hbits abits).
   Notation cpfx := (@FeldmanIterTraceDefs.cpfx hbits abits).
@@ -42,7 +44,8 @@ Section Iter.
       | Some (stk', a', i', None) => forall h, ~ wah w' h
       | Some (stk', a', i', Some v) =>
           exists ps' x', stk' = strip ps' /\ pos_ok l' ps' a' x' /\ sptr (vslot v) <> 0 /\
-                         wcur w' = (sptr (vslot v), vkey v) /\
+                         wfnd w' = (sptr (vslot v), vkey v) /\ kid l' = sptr (vslot v) /\ kidk l' = vkey v /\
+                         under (hash (vkey v)) x' /\ cut (hash (vkey v)) (fst x') (bits_of a') = i' /\
                          forall h, wah w' h -> ahead dir h ps' a' x' (post dir i') \/ h = hash (vkey v)
       end.
 
@@ -87,11 +90,11 @@ Section Iter.
       destruct (i_lim HI _ C1) as (_ & Clt & _).
       set (x' := cpfx (o, pre0) a i) in *.
       exists (set_view A t (push_stk l c x')),
-             (mkW true false (wstart w) (wend w) (fun h => wP w h /\ present g h) (wvis w)
-                  (fun h => ahead dir h ((a, i, (o, pre0)) :: ps) c x' (cstart dir c)) (wcur w)).
+             (mkW true (wstart w) (fun h => wP w h /\ present g h) (wvis w)
+                  (fun h => ahead dir h ((a, i, (o, pre0)) :: ps) c x' (cstart dir c)) (wfnd w) (wcur w) (wv w) (wrem w) (wgone w)).
       split; [unfold view in Hv; subst l; apply Inv_push; [exact HI|exact C1]|]. split; [apply frame_set_view|].
       split.
-      { eapply TR_move; [apply all_acc1|exact Hact| |left; reflexivity|reflexivity].
+      { eapply TR_move; [apply all_acc1|exact Hact|reflexivity| |left; reflexivity|reflexivity].
         intros h _ Hw. apply (ahead_descend Hh Ha); [exact Hlt|apply Hah; exact Hw]. }
       rewrite view_set_same.
       apply ConcRel.safeR_weaken with (Q := Qit dir (push_stk l c x')).
@@ -102,17 +105,17 @@ Section Iter.
     - destruct (Nat.eqb_spec b 1) as [->|Hb1].
       + (* converting: re-read *)
         exists A, w. split; [exact HI|]. split; [apply frame_refl|].
-        split; [apply TR_same; [reflexivity|apply all_acc_quiet; apply all_acc1]|]. rewrite Hv.
+        split; [apply TR_acc_same; apply all_acc1|]. rewrite Hv.
         apply HK1; [apply FeldmanIterSafe.kincl_refl|exact Hpos|exact Hact|exact Hah].
       + assert (b = 0).
         { destruct (le_lt_dec 2 b) as [Hge|Hl]; [|lia]. destruct (i_arrslot HI _ _ Hs Hge) as [E _]. congruence. }
         subst b.
         destruct (Nat.eqb_spec c 0) as [->|Hc0]; cbn [negb].
         * (* empty slot: pass *)
-          exists A, (mkW true false (wstart w) (wend w) (fun h => wP w h /\ present g h) (wvis w)
-                         (fun h => ahead dir h ps a (o, pre0) (post dir i)) (wcur w)).
+          exists A, (mkW true (wstart w) (fun h => wP w h /\ present g h) (wvis w)
+                         (fun h => ahead dir h ps a (o, pre0) (post dir i)) (wfnd w) (wcur w) (wv w) (wrem w) (wgone w)).
           split; [exact HI|]. split; [apply frame_refl|]. split.
-          { eapply TR_move; [apply all_acc1|exact Hact| |left; reflexivity|reflexivity].
+          { eapply TR_move; [apply all_acc1|exact Hact|reflexivity| |left; reflexivity|reflexivity].
             intros h Hpr Hw. apply (ahead_pass Hh Ha); [apply Hah; exact Hw|]. intros U E.
             apply (OBS h 0 Hs U E) in Hpr. destruct Hpr as [Hn _]. apply Hn. reflexivity. }
           rewrite Hv. apply HK0; [reflexivity|intros h Hw; exact Hw].
@@ -121,21 +124,21 @@ Section Iter.
           destruct (i_data HI _ _ Hp Hs Hb2 Hc0) as ((F1 & F2) & Hle & _).
           set (l1 := know_id l c k).
           exists (set_view A t l1),
-                 (mkW true false (wstart w) (wend w) (fun h => wP w h /\ present g h) (wvis w)
-                      (fun h => ahead dir h ps a (o, pre0) (post dir i) \/ h = hash k) (c, k)).
+                 (mkW true (wstart w) (fun h => wP w h /\ present g h) (wvis w)
+                      (fun h => ahead dir h ps a (o, pre0) (post dir i) \/ h = hash k) (c, k) (wcur w) (wv w) (wrem w) (wgone w)).
           split.
           { unfold view in Hv. apply Inv_view_fields; try (rewrite Hv; reflexivity); [exact HI|].
             cbn [l1 know_id kit kkey kid kidk]. split.
             - rewrite <- Hv. apply (i_items HI t).
             - intros _. split; [exact Hle|reflexivity]. }
           split; [apply frame_set_view|]. split.
-          { eapply TR_move; [apply all_acc1|exact Hact| | |reflexivity].
+          { eapply TR_move; [apply all_acc1|exact Hact|reflexivity| | |reflexivity].
             - intros h Hpr Hw. specialize (Hah h Hw).
               destruct (under_dec h (o, pre0)) as [U|U]; [destruct (Nat.eq_dec (cut h o (bits_of a)) i) as [E|E]|].
               + right. apply (OBS h c Hs U E) in Hpr. destruct Hpr as [_ Hh']. symmetry. exact Hh'.
               + left. apply (ahead_pass Hh Ha); [exact Hah|]. intros _. exact E.
               + left. apply (ahead_pass Hh Ha); [exact Hah|]. intros U'. contradiction.
-            - right. cbn [fst snd]. split; [|reflexivity]. exists a, i. split.
+            - right. unfold found. cbn [fst snd]. split; [|reflexivity]. exists a, i. split.
               + eapply (@FeldmanLinInv.pfx_reach hbits abits hs Hh Ha g A tr HI o a o); [apply le_n|exact Hp].
               + exists 0. repeat split; auto. }
           rewrite view_set_same.
@@ -149,7 +152,10 @@ Section Iter.
              assert (Hk : vkey v' = k).
              { apply (KP v' eq_refl); cbn [l1 know_id kid kidk]; [rewrite Es; reflexivity|exact Hc0]. }
              exists ps, (o, pre0). split; [reflexivity|]. split; [exact Hpos1|]. rewrite Es. cbn [sptr].
-             split; [exact Hc0|]. cbn [wcur wah]. split; [rewrite Hk; reflexivity|]. intros h Hw. rewrite Hk. exact Hw.
+             split; [exact Hc0|]. cbn [wfnd wah]. split; [rewrite Hk; reflexivity|].
+             split; [reflexivity|]. split; [cbn [l1 know_id kidk]; symmetry; exact Hk|].
+             split; [rewrite Hk; exact F1|]. split; [rewrite Hk; cbn [fst]; symmetry; exact F2|].
+             intros h Hw. rewrite Hk. exact Hw.
           -- apply ConcRel.safeR_weaken with (Q := Qit dir l1).
              { intros r l3 w3 H. eapply Qit_weaken; [exact Kl|exact H]. }
              apply HK1; [exact Kl|exact Hpos1|reflexivity|].
@@ -209,14 +215,11 @@ Section Iter.
   Definition Qil (l : L) : option unit -> L -> WI -> Prop :=
     fun r l' w' => kincl l l' /\ wact w' = true /\ (r <> None -> forall h, ~ wah w' h).
 
-  Lemma quiet_erased w b : quiet w [ev_erased b].
-  Proof. intros e [<-|[]]. right. left. right. exists b. reflexivity. Qed.
-
   Lemma safeR_iter_loop t s kdel sf dir : forall fuel ps a x i l w,
-    pos_ok l ps a x -> wact w = true -> (forall h, wah w h -> ahead dir h ps a x i) ->
+    pos_ok l ps a x -> ph l = PIdle -> wact w = true -> (forall h, wah w h -> ahead dir h ps a x i) ->
     safeR t (iter_loop hbits abits hs fuel sf dir t s kdel (strip ps) a i) l w (Qil l).
   Proof.
-    induction fuel as [|fuel IH]; intros ps a x i l w Hpos Hact Hah; cbn [iter_loop].
+    induction fuel as [|fuel IH]; intros ps a x i l w Hpos Hph Hact Hah; cbn [iter_loop].
     - split; [apply FeldmanIterSafe.kincl_refl|]. split; [exact Hact|]. intros H; congruence.
     - apply ConcRel.safeR_bind.
       apply ConcRel.safeR_weaken with (Q := Qit dir l).
@@ -224,31 +227,51 @@ Section Iter.
       intros [[[[stk' a'] i'] [v|]]|] l1 w1 (K1 & A1 & K2).
       3:{ split; [exact K1|]. split; [exact A1|]. intros H; congruence. }
       2:{ split; [exact K1|]. split; [exact A1|]. intros _. exact K2. }
-      destruct K2 as (ps' & x' & -> & P1 & Hv0 & Hcur & Hah1).
+      destruct K2 as (ps' & x' & -> & P1 & Hv0 & Hfnd & Hkid & Hkidk & Hund & Hcut & Hah1).
+      assert (Hph1 : ph l1 = PIdle) by (destruct K1 as [_ E]; congruence).
       apply ConcRel.safeR_weaken with (Q := Qil l1).
       { intros r l3 w3 (H1 & H2). split; [eapply FeldmanIterSafe.kincl_trans; eauto|exact H2]. }
       unfold a_gld. apply safeR_nop.
       (* the visit *)
-      set (w2 := mkW true false (wstart w1) (wend w1) (wP w1) (wcur w1 :: wvis w1)
-                     (fun h => ahead dir h ps' a' x' (post dir i')) (wcur w1)).
-      cbn [ConcRel.safeR]. intros g A tr HI Hv. exists A, w2. split; [eapply Inv_trace; exact HI|]. split; [apply frame_refl|].
+      cbn [ConcRel.safeR]. intros g A tr HI Hv.
+      set (w2 := mkW true (wstart w1) (wP w1) (wfnd w1 :: wvis w1) (fun h => ahead dir h ps' a' x' (post dir i'))
+                     (wfnd w1) (wfnd w1) (List.length tr) 0 false).
+      exists A, w2. split; [eapply Inv_trace; exact HI|]. split; [apply frame_refl|].
       split.
       { split; [apply FeldmanIterReachBase.Rel2_refl|].
-        eapply TR_visit; [rewrite Hcur; reflexivity|exact A1|rewrite Hcur; exact Hv0| |reflexivity].
-        intros h Hw. rewrite Hcur. cbn [snd]. apply Hah1. exact Hw. }
+        eapply TR_visit; [rewrite Hfnd; reflexivity|exact A1|reflexivity|rewrite Hfnd; exact Hv0| |reflexivity].
+        intros h Hw. rewrite Hfnd. cbn [snd]. apply Hah1. exact Hw. }
       rewrite Hv.
-      assert (NEXT : forall l2, kincl l1 l2 ->
-                safeR t (iter_loop hbits abits hs fuel sf dir t s kdel (strip ps') a' (if dir then S i' else i')) l2 w2 (Qil l2)).
-      { intros l2 K. apply IH with (x := x'); [eapply pos_ok_kincl; eauto|reflexivity|intros h Hw; exact Hw]. }
+      assert (NEXT : forall l2 w3, kincl l1 l2 -> wact w3 = true -> wah w3 = wah w2 ->
+                safeR t (iter_loop hbits abits hs fuel sf dir t s kdel (strip ps') a' (if dir then S i' else i')) l2 w3 (Qil l2)).
+      { intros l2 w3 K A3 E3. apply IH with (x := x'); [eapply pos_ok_kincl; eauto|destruct K as [_ E]; congruence|exact A3|].
+        intros h Hw. rewrite E3 in Hw. exact Hw. }
+      assert (A2 : wact w2 = true) by reflexivity.
+      assert (R2 : wrem w2 = 0) by reflexivity.
+      assert (C2 : wcur w2 = wfnd w1) by reflexivity.
+      clearbody w2. clear g A tr HI Hv.
       destruct (Nat.eqb (vkey v) kdel).
-      + apply ConcRel.safeR_bind.
-        eapply ConcRel.safeR_weaken; [|apply safeR_erase_at_loop; [exact Hh|exact Ha|exact Hv0|eapply pos_ok_knows; eauto|eapply pos_ok_knows0; eauto]].
-        intros [b|] l2 w3 [K3 ->].
-        * apply safeR_emit_quiet; [apply quiet_erased|].
-          eapply ConcRel.safeR_weaken; [|apply NEXT; exact K3].
-          intros r l3 w3 (H1 & H2). split; [eapply FeldmanIterSafe.kincl_trans; eauto|exact H2].
-        * split; [exact K3|]. split; [reflexivity|]. intros H; congruence.
-      + apply NEXT. apply FeldmanIterSafe.kincl_refl.
+      + destruct x' as [o' pre'].
+        destruct (pos_ok_in hbits abits _ _ _ _ P1) as [Hin' _].
+        apply ConcRel.safeR_bind.
+        eapply ConcRel.safeR_weaken;
+          [|apply (@safeR_erase_at_loop hbits abits hs Hh Ha t s a' i' (sptr (vslot v)) (vkey v) sf o' pre' Hv0 Hund Hcut sf l1 w2 Hin' Hkid Hkidk Hph1)].
+        * intros [b|] l2 w3 (K3 & (W1 & W2 & W3 & W4 & W5) & K4).
+          -- (* the "erased" event *)
+             cbn [ConcRel.safeR]. intros g A tr HI Hv. exists A, w3. split; [eapply Inv_trace; exact HI|]. split; [apply frame_refl|].
+             split.
+             { split; [apply FeldmanIterReachBase.Rel2_refl|].
+               rewrite R2 in K4.
+               eapply TR_erased; [reflexivity|rewrite W1; exact A2|reflexivity|rewrite W3, C2, Hfnd; exact Hv0| | |reflexivity].
+               - intros ->. exact K4.
+               - intros ->. exact K4. }
+             rewrite Hv.
+             eapply ConcRel.safeR_weaken; [|apply NEXT; [apply kinc_kincl; exact K3|rewrite W1; exact A2|exact W2]].
+             intros r l3 w4 (H1 & H2). split; [eapply FeldmanIterSafe.kincl_trans; [apply kinc_kincl; exact K3|exact H1]|exact H2].
+          -- split; [apply kinc_kincl; exact K3|]. split; [rewrite W1; exact A2|]. intros H; congruence.
+        * rewrite C2, Hfnd. reflexivity.
+        * exact A2.
+      + apply NEXT; [apply FeldmanIterSafe.kincl_refl|exact A2|reflexivity].
   Qed.
 
   (** ** operations and threads *)
@@ -273,11 +296,11 @@ Section Iter.
       set (dir := Nat.eqb (Z.to_nat code) 20).
       set (i0 := if dir then 0 else nsize 0).
       cbn [ConcRel.safeR]. intros g A tr HI Hv. unfold view in Hv.
-      set (w1 := mkW true false (List.length tr) 0 (fun _ : N => True) [] (fun _ : N => True) (0, 0)).
+      set (w1 := mkW true (List.length tr) (fun _ : N => True) [] (fun _ : N => True) (0, 0) (0, 0) (List.length tr) 0 false).
       exists (set_view A t (push_stk (views A t) 0 (0, 0%N))), w1. split.
       { eapply Inv_trace. apply Inv_push; [exact HI|apply (i_head HI)]. }
       split; [apply frame_set_view|]. split.
-      { split; [apply FeldmanIterReachBase.Rel2_refl|]. eapply TR_start; [reflexivity|exact Hc|reflexivity]. }
+      { split; [apply FeldmanIterReachBase.Rel2_refl|]. eapply TR_start; [reflexivity|exact Hc|reflexivity|reflexivity]. }
       rewrite view_set_same, Hv.
       apply ConcRel.safeR_bind.
       change (@nil (nat * nat)) with (strip []).
@@ -285,13 +308,14 @@ Section Iter.
       + intros [u|] l1 w2 ((K1 & K2) & A2 & K3); cbn [push_stk ph] in K2.
         * unfold a_gst. apply safeR_nop. apply safeR_nop.
           cbn [ConcRel.safeR]. intros g2 A2' tr2 HI2 Hv2.
-          exists A2', (mkW false true (wstart w2) (List.length tr2) (wP w2) (wvis w2) (wah w2) (wcur w2)).
+          exists A2', (mkW false (wstart w2) (wP w2) (wvis w2) (wah w2) (wfnd w2) (wcur w2) (wv w2) (wrem w2) (wgone w2)).
           split; [eapply Inv_trace; exact HI2|]. split; [apply frame_refl|]. split.
           { split; [apply FeldmanIterReachBase.Rel2_refl|].
-            eapply TR_finish; [reflexivity|exact A2|apply K3; discriminate|reflexivity]. }
+            eapply TR_finish; [reflexivity|exact A2|reflexivity|apply K3; discriminate|reflexivity]. }
           rewrite Hv2. split; [congruence|]. intros _. reflexivity.
         * unfold give_up. apply safeR_emit_quiet; [apply quiet_oof|]. split; [congruence|]. intros H; congruence.
       + cbn [FeldmanIterTraceDefs.pos_ok push_stk kstk]. split; [left; reflexivity|]. split; [cbn; lia|]. split; reflexivity.
+      + cbn [push_stk ph]. exact HPh.
       + reflexivity.
       + intros h _. rewrite ahead_unfold. left. split; [apply under_root|].
         unfold i0. destruct dir; cbn [cmp]; [lia|]. apply (cut_lt_nsize Hh Ha).
